@@ -30,13 +30,13 @@ ALLOWED_SKIP_REASONS = ("min_duration", "samp", "channel", "manifest")
 
 def run(ctx):
     prog = ctx.prog
-    kaldi_pipeline(ctx)
-    torch_pipeline(ctx)
-    attrs(ctx)
-    exclusions(ctx)
-    config_syntax(ctx)
-    seed(ctx)
-    torch_twins(ctx)
+    ctx.rule(kaldi_pipeline)
+    ctx.rule(torch_pipeline)
+    ctx.rule(attrs)
+    ctx.rule(exclusions)
+    ctx.rule(config_syntax)
+    ctx.rule(seed)
+    ctx.rule(torch_twins)
 
 
 # ----------------------------------------------------------------- helpers
